@@ -50,4 +50,19 @@ Definition dispatch_http (op : Z) (a : val) : option val :=
     Some (vopt_str (get_match (as_str a)))
   else if op =? 1608 then   (* chunks -> the handler saw the end of the input before answering *)
     Some (match waits_for_close (as_strs a) with Ok b => vbool b | Err _ => verr end)
+  else if op =? 1609 then   (* spec: stream -> [] | [limit_hi, limit_lo, offset_hi, offset_lo] its request line asks for *)
+    Some (match spec_get_request (as_str a) with
+          | None => VL []
+          | Some (l, f) => VL [VI (l / 4294967296); VI (l mod 4294967296); VI (f / 4294967296); VI (f mod 4294967296)]
+          end)
+  else if op =? 1610 then   (* spec: [items, limit_hi, limit_lo, offset_hi, offset_lo] -> the window of items a GET is shown.
+                               Both numbers are cut down to the length of the list first (spec_window_clamp: same window),
+                               so that no unary number of the size of 2^63 is ever built. *)
+    Some (let items := as_strs (arg a 0) in
+          let n := Z.of_nat (length items) in
+          let l := as_int (arg a 1) * 4294967296 + as_int (arg a 2) in
+          let f := as_int (arg a 3) * 4294967296 + as_int (arg a 4) in
+          VL (map vstr (spec_window items (Z.min l n) (Z.min f n))))
+  else if op =? 1611 then   (* spec: response bytes -> [] | [body] *)
+    Some (vopt_str (response_body (as_str a)))
   else None.
